@@ -259,7 +259,7 @@ class Scheduler {
   std::vector<PointRec> trace;  // branching points only
   std::atomic<int> done{0};
   std::atomic<int> ready_count{0};
-  bool cut = false;  // closure mode: reached a visited fingerprint
+  std::size_t cut_pos = SIZE_MAX;  // closure mode: first point with a visited fingerprint
   std::uint64_t cut_count = 0;
   std::function<void(int)> on_invoke;  // lazily stamped invocation callback
 
@@ -295,7 +295,7 @@ class Scheduler {
     trace.clear();
     done.store(0, std::memory_order_relaxed);
     ready_count.store(0, std::memory_order_relaxed);
-    cut = false;
+    cut_pos = SIZE_MAX;
     // publish the schedule we are about to run
     Progress* p = g_progress;
     p->nchoices = static_cast<std::uint32_t>(
@@ -348,11 +348,6 @@ class Scheduler {
     resume_other(opts[static_cast<std::size_t>(c)]);
   }
 
-  // Closure mode cut: terminate the execution early.  All workers are
-  // abandoned where they are (they stay parked forever in this execution), so
-  // a runner that uses closure mode must fork per execution or tolerate
-  // leaked threads; lock_runner uses the latter with detached threads.
-
   void point(Worker& w, unsigned hkind, const volatile void* addr,
              unsigned size, std::uint64_t newval) {
     settle(w);
@@ -371,7 +366,7 @@ class Scheduler {
     std::vector<int> opts;
     opts.push_back(w.id);
     others_enabled_asc(w.id, opts);
-    if (closure_mode && opts.size() > 1 && check_cut()) return park_forever(w);
+    if (closure_mode && opts.size() > 1) check_cut();
     const int c = choose(w.id, PK_ACCESS, hkind, opts);
     if (c != 0) switch_to(w, opts[static_cast<std::size_t>(c)]);
     // we are about to perform the access
@@ -420,7 +415,7 @@ class Scheduler {
     if (opts.empty())
       fatal(EXIT_DEADLOCK,
             "deadlock: thread spins on unchanged state, nobody else enabled");
-    if (closure_mode && opts.size() > 1 && check_cut()) return park_forever(w);
+    if (closure_mode && opts.size() > 1) check_cut();
     const int c = choose(w.id, PK_YIELD, 0, opts);
     const int t = opts[static_cast<std::size_t>(c)];
     if (t != w.id) {
@@ -585,32 +580,34 @@ class Scheduler {
   }
 
   // closure mode ------------------------------------------------------------
-  bool check_cut() {
-    if (prefix != nullptr && trace.size() < prefix->size()) return false;
+  // Closure mode: at every branching point outside the replayed prefix the
+  // fingerprint of (shared state, every thread's declared local state and
+  // observations since its last declared boundary, scheduler bookkeeping) is
+  // looked up.  The first time an already visited fingerprint is met, the
+  // execution is cut there: it still runs to completion on default choices,
+  // but the explorer does not branch at or beyond that point (the execution
+  // that inserted the fingerprint explores every alternative from it).
+  void check_cut() {
+    if (cut_pos != SIZE_MAX) return;
+    if (prefix != nullptr && trace.size() < prefix->size()) return;
     std::uint64_t h = cb ? cb->fingerprint() : 0;
     for (int i = 0; i < nthreads; ++i) {
       Worker& u = workers[i];
       std::uint64_t th = mix(u.local_state, u.obs_hash);
       th = mix(th, (u.finished ? 1U : 0U) | (u.started ? 2U : 0U) |
-                       (u.parked_yield && u.yield_seq == write_seq ? 4U : 0U) |
-                       (u.block_pred ? 8U : 0U));
+                       (u.parked_yield && u.yield_seq == write_seq ? 4U : 0U) | (u.block_pred ? 8U : 0U) |
+                       (u.ever_yielded ? 16U : 0U) | (write_seq != u.last_yield_seq ? 32U : 0U) |
+                       (u.acc_since_yield == 0 ? 64U : 0U));
+      th = mix(th, u.cycle_hash);
+      if (u.window_seq == write_seq)
+        for (const auto c : u.seen_cycles) th = mix(th, c);
       h = mix(h, th);
     }
     h = mix(h, static_cast<std::uint64_t>(current));
     if (!visited->insert(h).second) {
-      cut = true;
+      cut_pos = trace.size();
       ++cut_count;
-      return true;
     }
-    return false;
-  }
-
-  void park_forever(Worker& /*w*/) {
-    // End the execution here: wake the controller; this thread (and all
-    // others) stay parked.  Closure-mode runners run each execution in a
-    // forked child, so nothing leaks.
-    futex_set_wake(done, 1);
-    for (;;) ::pause();
   }
 };
 
@@ -679,7 +676,8 @@ ExploreStats explore(unsigned bound, unsigned shard, unsigned nshards,
     }
     // children, pushed in reverse so that the DFS visits them in order
     std::vector<WorkItem> kids;
-    for (std::size_t i = item.prefix.size(); i < tr.size(); ++i) {
+    const std::size_t branch_end = std::min(tr.size(), g_sched.cut_pos);
+    for (std::size_t i = item.prefix.size(); i < branch_end; ++i) {
       const PointRec& p = tr[i];
       const unsigned cost =
           p.preempt_before + (p.pkind == PK_ACCESS ? 1U : g_sched.free_alt_cost);
